@@ -62,7 +62,7 @@ func registry() core.Registry {
 		"C09": one(&fn.C09{}, &sim.Sim{Prop: "C09", P: profC09, NQuick: 600, NThor: 6000, FloorsQ: map[string]int{"C09.acting-syncs": 2000, "C09.sim-creating-syncs-with-binding-ramp": 1500}}, &sim.Sim{Prop: "C09", P: nested(profC09, 0.12), NQuick: 300, NThor: 3000, FloorsQ: map[string]int{}}, &sim.Sim{Prop: "C09", P: big(profC09), NQuick: 40, NThor: 400, FloorsQ: map[string]int{}}, &sim.Sim{Prop: "C09", P: profC05, NQuick: 250, NThor: 2500, FloorsQ: map[string]int{}}),
 		"C10": one(&fn.C10{}, &sim.Sim{Prop: "C10", P: profC10, NQuick: 400, NThor: 5000, FloorsQ: map[string]int{"C10.sim-creates-with-annotation": 600, "C10.sim-creates-with-setting": 300, "C10.sim-update-deletes-of-own-pods-judged": 100, "C10.sim-pods-judged-at-fixpoint": 500}}, &sim.Sim{Prop: "C10", P: nested(profC10, 0.12), NQuick: 200, NThor: 2500, FloorsQ: map[string]int{}}),
 		"C14": one(&fn.C14{}, &sim.Sim{Prop: "C14", P: profC14, NQuick: 400, NThor: 4000, FloorsQ: map[string]int{"C14.eds-status-writes-judged": 1500, "C14.rs-status-writes-judged": 2500, "C14.fixpoints-judged": 100}}, &sim.Sim{Prop: "C14", P: nested(profC14, 0.12), NQuick: 200, NThor: 2000, FloorsQ: map[string]int{}}, &sim.Sim{Prop: "C14", P: big(profC14), NQuick: 40, NThor: 400, FloorsQ: map[string]int{}}, &sim.C14Scale{}, &sim.Sim{Prop: "C14", P: profC04, NQuick: 300, NThor: 3000, FloorsQ: map[string]int{}}),
-		"C15": one(&fn.C15{}, &sim.Sim{Prop: "C15", P: profC15, NQuick: 400, NThor: 5000, FloorsQ: map[string]int{"C15.sim-canary-lists-judged": 400}}, &sim.Sim{Prop: "C15", P: nested(profC15, 0.12), NQuick: 200, NThor: 2500, FloorsQ: map[string]int{}}, &sim.Sim{Prop: "C15", P: big(profC15), NQuick: 40, NThor: 400, FloorsQ: map[string]int{}}),
+		"C15": one(&fn.C15{}, &sim.Sim{Prop: "C15", P: profC15, NQuick: 400, NThor: 5000, FloorsQ: map[string]int{"C15.sim-canary-lists-judged": 400}}, &sim.Sim{Prop: "C15", P: nested(profC15, 0.12), NQuick: 200, NThor: 2500, FloorsQ: map[string]int{}}, &sim.Sim{Prop: "C15", P: big(profC15), NQuick: 40, NThor: 400, FloorsQ: map[string]int{}}, &sim.C15Script{}),
 		"C16": one(&fn.C16{}, &fn.C16Corpus{}, &fn.C16Fuzz{}, &sim.Sim{Prop: "C16", P: profC16, NQuick: 400, NThor: 5000, FloorsQ: map[string]int{}}, &sim.Sim{Prop: "C16", P: nested(profC16, 0.12), NQuick: 200, NThor: 2500, FloorsQ: map[string]int{}}),
 		"C17": one(&sim.C17{}),
 		"C18": one(&fn.C18{}, &sim.Sim{Prop: "C18", P: profC10, NQuick: 300, NThor: 4000, FloorsQ: map[string]int{"C18.sim-nodes-judged-at-fixpoint": 500}}),
